@@ -100,8 +100,10 @@ def run(r):
         w = f"{r.P.modules[ci.module].relpath}:{ci.node.lineno}"
         rep.ob("C09-COL", T + cname, got_scope == (chain, cdr), f"{cname} is declared with chain scope {chain} and loop scope {cdr}", w, expected=f"{chain}, {cdr}", found=str(got_scope), key="scope table")
         m = {("attr", selft, a): v for a, v in sc.items()}
+        from ..rules import inline_new_module_vars, rewrite as _rw, small_rewrites
         try:
-            cols = eval_term(fold(s.ret, m))
+            t_cols = _rw(_rw(subst(strip_all(_rw(strip_all(s.ret), inline_new_module_vars(r))), m), small_rewrites), small_rewrites)
+            cols = eval_term(fold(t_cols, m))
         except NotConstant as e:
             raise AnalysisBroken(f"_get_columns_to_compare does not fold to a constant list for {cname}: {e}")
         loops = ["CDR3"] + (["CDR1", "CDR2"] if cdr == "ALL" else [])
@@ -115,7 +117,10 @@ def run(r):
     pn = [p[0] for p in s.params]
     colp = ("param", pn[3])
     for col in COLUMNS:
+        from ..rules import inline_new_module_vars as _inmv, rewrite as _rw2, small_rewrites as _small
         t = fold(s.ret, {colp: const(col)})
+        for _ in range(3):
+            t = fold(_rw2(strip_all(t), _small), {})
         ctx = RFContext(vec=lambda x: head(strip(x)) == "call" and strip(strip(x)[1]) == ("glob", "rapidfuzz.process.cdist"))
         cd = [x for x in walk(t) if head(x) == "call" and strip(x[1]) == ("glob", "rapidfuzz.process.cdist")]
         chain_attr = "alpha_weight" if col.endswith("A") else "beta_weight"
